@@ -154,6 +154,7 @@ class FitLoop(NdContract):
             if isinstance(st.env.get("y_reduction_unique"), Abstract):
                 cnt = st.env["y_reduction_unique"].count
                 eng.oblige(st, "constant_classifier_iff_a_single_relabelled_value", (cnt == 1) == BoolVal(recv.kind == "constant"), "reduction", node)
+                eng.oblige(st, "single_value_shortcut_looks_at_the_labels_the_learner_is_trained_on", BoolVal(st.env["y_reduction_unique"].of is labels), "wiring", node)
             st.env["current_estimator"] = Abstract("est", kind=recv.kind, trained_for=kk)
             return None
         if name == "time":
